@@ -338,7 +338,7 @@ def random(
     ).reshape(shape)
 
     if idx_dtype:
-        if can_store(idx_dtype, max(shape)):
+        if can_store(idx_dtype, max(shape, default=0)):
             ar.coords = ar.coords.astype(idx_dtype)
         else:
             raise ValueError(f"cannot cast array with shape {shape} to dtype {idx_dtype}.")
